@@ -251,8 +251,11 @@ CLAIMS = [
                       "comments on every exit, render roots emit trailing comments, each comment table has one emitter folding over the whole "
                       "list; verbatim regions are copied as two adjacent source slices ending the annotation at its first `]`; scoped "
                       "formatters and every tool entry point keep the source text; the CLI writes the renderer's untransformed output; a "
-                      "constructor name is separated from a commented argument. Fired on F17, F19 (repaired) and on all four seeded changes.",
-        "level_note": "NOT decided: the comment capture (which entity a comment is filed under from byte positions), attached text blocks, and the "
+                      "constructor name is separated from a commented argument; the text of a comment is cut out of the source and printed with "
+                      "inventoried str operations only (marker, one space and the terminator removed; `split` at the separator capture joins "
+                      "with; the printer is the inverse of capture) and comment tokens are grouped only over horizontal gaps. Fired on F17, "
+                      "F19 (repaired) and on all eight seeded changes.",
+        "level_note": "NOT decided: which entity a comment is filed under beyond the anchor polarity (comments that move over name tokens), and the "
                       "universally quantified statement itself.",
     },
     {
